@@ -31,7 +31,7 @@ def to_text(files, kind, seed, path, first_id=0):
             f.write("prog %d %d %d\n" % (first_id + q, cfg, seed * 1000 + q))
             for ln in open(fn):
                 o = json.loads(ln)
-                f.write(" ".join([o["op"]] + [str(o[k]) for k in ORDER.get(o["op"], ())]) + "\n")
+                f.write(" ".join([("@" if o.get("th") == "helper" else "") + o["op"]] + [str(o[k]) for k in ORDER.get(o["op"], ())]) + "\n")
                 steps += 1
             f.write("end\n")
             n += 1
